@@ -39,7 +39,9 @@ def tokenizes(out, e, letters):
 
 
 def textual_classes():
-    """(version, datatype, class, v27?) for every textual base datatype class of every version"""
+    """(version, datatype, class, v27?) for every textual base datatype class of every version.  Which escaping a class owes is a
+    fact about its VERSION (from 2.7 on: truncation character and the letter L), not about the class it happens to derive from — a
+    2.7+ class wired to the pre-2.7 code is exactly what the property forbids (seed C06-e, defect D35)."""
     import hl7apy
     from hl7apy import base_datatypes as bd
     from hl7apy.v2_7 import base_datatypes as bd27
@@ -48,7 +50,7 @@ def textual_classes():
         lib = hl7apy.load_library(v)
         for dt, cls in sorted(lib.BASE_DATATYPES.items()):
             if issubclass(cls, bd.TextualDataType) and dt != 'TN':
-                out.append((v, dt, cls, issubclass(cls, bd27.TextualDataType)))
+                out.append((v, dt, cls, tuple(int(x) for x in v.split('.')) >= (2, 7)))
     return out
 
 
